@@ -33,12 +33,13 @@ def plan(tier, seed):
     nmax = 4 if tier == 'quick' else 5
     chunks = [{'kind': 'api', 'n': n, 'mod': m, 'rem': r} for n, m in ((2, 1), (3, 2), (4, 16), (5, 64))
               if n <= nmax for r in range(m)]
+    chunks += [{'kind': 'api-pairs', 'n': 3 if tier == 'quick' else 4, 'mod': 4, 'rem': r} for r in range(4)]
     chunks += [{'kind': 'cli', 'mod': 8, 'rem': r, 'n': 3 if tier == 'quick' else 4} for r in range(8)]
     return {
         'chunks': chunks,
         'rule': 'grammars extracted from every labelled hierarchy (labels {A,B}, <= 1 unary) over n <= %d tokens '
                 '(words incl. ambiguous, capitalised and non-ASCII ones), raw and binarized in %d modes, written as '
-                'PMCFG / RCG / LoPar x lex_in_grammar on/off x {utf-8, latin-1}; decoded by independent decoders '
+                'PMCFG / RCG / LoPar x lex_in_grammar on/off x {utf-8, latin-1}; two-sentence treebanks (every ordered pair of all-A hierarchies, so that one production has a continuous and a discontinuous linearization); decoded by independent decoders '
                 'and (RCG) by the tool reader; CLI `treetools grammar` from export and from RCG sources. '
                 'non-trivial = distinct (grammar, mode, format, option) cases with a count > 1 or fan-out > 1' % (nmax, len(MODES) - 1),
         'bound': 'trees n <= %d; %d modes; 3 formats' % (nmax, len(MODES)),
@@ -430,12 +431,25 @@ def banks(n):
             yield [mt]
 
 
+def pair_banks(n):
+    """Two-sentence treebanks over all-equal labels and tags: the same bare production occurs with a
+    continuous and with a discontinuous linearization, in either order."""
+    pool = []
+    for m in range(2, n + 1):
+        for sh in model.shapes(m):
+            root = model.decorate(sh, lambda p, s: 'A')
+            pool.append((sh, root, m))
+    for (sa, ra, na), (sb, rb, nb) in itertools.product(pool, repeat=2):
+        yield [model.MT(1, model.mk_tokens(na, words=[WORDS[i % len(WORDS)] for i in range(na)], pos=['x'] * na), ra),
+               model.MT(2, model.mk_tokens(nb, words=[WORDS[(i + 2) % len(WORDS)] for i in range(nb)], pos=['x'] * nb), rb)]
+
+
 def run_chunk(chunk):
     res = Result()
     with quiet():
-        if chunk['kind'] == 'api':
+        if chunk['kind'] in ('api', 'api-pairs'):
             bank = None
-            for i, bank in enumerate(banks(chunk['n'])):
+            for i, bank in enumerate(banks(chunk['n']) if chunk['kind'] == 'api' else pair_banks(chunk['n'])):
                 if i % chunk['mod'] != chunk['rem']:
                     continue
                 js = [m.to_json() for m in bank]
@@ -448,11 +462,11 @@ def run_chunk(chunk):
                                 vs, nt = check_write(js, mode_i, fmt, lig, enc)
                                 res.evals += 1
                                 res.nontrivial += 1 if nt else 0
-                                res.outcome((bank[0].key(), mode_i, fmt, lig, enc, len(vs)))
+                                res.outcome((tuple(m.key() for m in bank), mode_i, fmt, lig, enc, len(vs)))
                                 for v in vs:
                                     res.violation(v['kind'], v['where'], v['case'], v['detail'], v['what'])
             if bank:
-                res.sample({'treebank': [model.mt_str(bank[0].root, bank[0].toks)], 'modes': len(MODES),
+                res.sample({'treebank': [model.mt_str(m.root, m.toks) for m in bank], 'modes': len(MODES),
                             'formats': ['pmcfg', 'rcg', 'lopar']})
         else:
             combos = [('treebank', None), ('leftright', None), ('optimal', None), ('leftright', ['v:1', 'h:1']),
